@@ -9,7 +9,7 @@ ok == "addSuccess"
 er == "addError"
 
 \* quick: 2 workers x <= 2 tests, run() may raise; one fault (make_tests raising after k, or an interrupt)
-ScriptQ == {S(<<ok>>, "base"), S(<<>>, "no"), S(<<ok, er>>, "no"), S(<<>>, "exc"), S(<<er>>, "exc")}
+ScriptQ == {S(<<ok>>, "base"), S(<<>>, "no"), S(<<ok, er>>, "no"), S(<<>>, "exc")}
 ScriptsQ == [1..2 -> ScriptQ]
 \* thorough: 3 workers, 1 worker with 3 tests, 4 small workers
 ScriptT == {S(<<>>, "no"), S(<<ok>>, "no"), S(<<>>, "exc")}
